@@ -10,7 +10,12 @@ ClausesSchema(e) ==
   [ in_proto  |-> e.in.P # <<>>,
     \* (a message with a hand-written codec has no attribute table; the behavioural clauses below decide it)
     rust_matches_proto   |-> e.in.R = e.in.P \/ ("Rhand" \in DOMAIN e.in /\ e.in.Rhand),
-    python_matches_proto |-> e.in.Y = e.in.P ]
+    python_matches_proto |-> e.in.Y = e.in.P,
+    \* the PUBLISHED schema (frozen at the baseline: the numbers releases in the field wrote their bytes with) is kept: the
+    \* live schema may add fields, messages and enum values, but every published field keeps its number, name, type and label
+    published_kept |-> ("Pub" \in DOMAIN e.in /\ e.in.Pub # <<>>) =>
+                          /\ e.in.P # <<>>
+                          /\ \A i \in DOMAIN e.in.Pub[1] : \E j \in DOMAIN e.in.P[1] : e.in.P[1][j] = e.in.Pub[1][i] ]
 ClausesWireDecode(e) ==
   LET T == e.in.type IN
   IF ~WOk(e) THEN [ no_error |-> FALSE ]
